@@ -112,6 +112,38 @@ template <typename T> Sx pure_case(std::string const& cmd, Sx const& a)
         if (!e.exact()) throw std::runtime_error("select: canonical number not reproduced by the engine");
         return Sx::list({Sx::num(r)});
     }
+    if (cmd == "iterdirect")
+    {
+        // the *_iteration functions called directly, as users who drive the iterations themselves do: the generator is the caller's
+        // object, so its state is observable while a point is evaluated and after an exception - every call must have taken exactly
+        // d (multi-channel: d + 1) canonical numbers from it when the integrand sees the point.  C++ only (args: kind dims calls throw_at)
+        std::string const kind = a.at(0).Y_(); std::size_t const dims = a.at(1).N_(), calls = a.at(2).N_(), throw_at = a.at(3).N_();
+        Ctx ctx; g_ctx = &ctx; ctx.seed = 99;
+        script_engine gen(7);
+        std::size_t const per = dims + (kind == "mc" ? 1 : 0);
+        std::size_t seen = 0; std::vector<std::uint64_t> wrong;
+        struct stop {};
+        auto look = [&]() { std::uint64_t const want = 7 + (seen + 1) * per; if (gen.pos != want) wrong.push_back(seen); ++seen; if (throw_at && seen == throw_at) throw stop(); };
+        try
+        {
+            if (kind == "plain") { auto f = [&](hep::mc_point<T> const&) { look(); return T(1.0); }; hep::plain_iteration(hep::make_integrand<T>(f, dims), calls, gen); }
+            else if (kind == "vegas") { auto f = [&](hep::vegas_point<T> const&) { look(); return T(1.0); }; hep::vegas_pdf<T> pdf(dims, 4); hep::vegas_iteration(hep::make_integrand<T>(f, dims), calls, pdf, gen); }
+            else
+            {
+                auto f = [&](hep::multi_channel_point<T> const&) { look(); return T(1.0); };
+                auto m = [](std::size_t, std::vector<T> const& us, std::vector<T>& c, std::vector<std::size_t> const&, std::vector<T>& d, hep::multi_channel_map act) {
+                    if (act == hep::multi_channel_map::calculate_coordinates) { for (std::size_t k = 0; k != c.size(); ++k) c[k] = us[k]; return T(1.0); }
+                    for (auto& x : d) x = T(1.0); return T(1.0); };
+                std::vector<T> w{T(0.25), T(0.75)};
+                hep::multi_channel_iteration(hep::make_multi_channel_integrand<T>(f, dims, m, dims, 2), calls, w, gen);
+            }
+        }
+        catch (stop const&) {}
+        std::size_t const done = throw_at ? throw_at : calls;
+        Sx out = Sx::list({Sx::sym(wrong.empty() && seen == done && gen.pos == 7 + done * per ? "ok" : "violation"), Sx::num(seen), Sx::num(gen.pos), Sx::num(7 + done * per)});
+        for (std::size_t k = 0; k != wrong.size() && k != 3; ++k) out.add(Sx::num(wrong[k]));
+        return out;
+    }
     if (cmd == "selects")
     {
         auto ws = floats<T>(a.at(0));
